@@ -7,6 +7,7 @@ runnable task from the run's PRNG and, if that is another task, hands the baton
 over and parks.  Every choice is drawn from PRNGs derived from the run's seed,
 and nothing reads a real clock, so one seed is one execution.
 """
+import os
 import hashlib
 import heapq
 import random
@@ -84,6 +85,10 @@ class Sim:
         self.now = clock.get('epoch', 1600000000.0)
         self.step = 0
         self.step_cap = step_cap
+        # statements executed by the harness thread itself (single-client checks run the code under test there): a call that
+        # never returns shows up as this count passing its cap, deterministically, instead of as a worker that hangs
+        self.hsteps = 0
+        self.hcap = int(os.environ.get('VERIF_HCAP', '100000'))
         self.line_p = line_p
         self.yield_clock = yield_clock
         self.tasks = []
